@@ -3,7 +3,7 @@
 //!   conc <scenario> --mode shuttle|threads --seed S --cases N
 //!        [--replay FILE] [--replay-dir DIR] [--trace-out DIR] [--timeout-ms T] [--schedules K] [--reps R]
 //!
-//! Scenarios: c16 c17 c18 c19 c24 c08 (both modes), c14 c20 c21 c22 (`threads` only, DESIGN §2.5a).
+//! Scenarios: c16 c17 c18 c19 c24 c08 (both modes), c14 c19p c20 c21 c22 (`threads` only, DESIGN §2.5a).
 //! The mode is fixed by the build: `--features shuttle` ⇒ `shuttle`, otherwise `threads`.
 //!
 //! Output:
@@ -70,6 +70,12 @@ enum Spec {
     LocalCancel { plans: Vec<Vec<usize>>, victim: usize, self_cancel: Option<usize>, delay: u32 },
     /// c22
     Panic { plans: Vec<Vec<usize>>, node: usize, at_exit: bool },
+    /// c19p (also part of c22): thread A (request `a_req`) executes `inner` below a fixpoint
+    /// (variant 1), thread B (request `b_req`) blocks on `inner`; then A's token is cancelled
+    /// (variants 1, 2) and `inner` panics on A (variants 0, 1).
+    /// variant 0 = control (no cancel), 1 = cancel deferred inside a fixpoint + panic,
+    /// 2 = cancel outside of any fixpoint, no panic (A unwinds with Local, B retries).
+    PanicDeferred { variant: u8, a_req: usize, b_req: usize, inner: usize, at_exit: bool, once: bool },
     /// c24 / c08
     Alloc { ops: Vec<Vec<AOp>> },
 }
@@ -115,6 +121,11 @@ impl Case {
             Spec::Panic { plans: p, node, at_exit } => {
                 o.push_str(&format!("panic node={node} at_exit={at_exit}\n"));
                 plans(&mut o, p)
+            }
+            Spec::PanicDeferred { variant, a_req, b_req, inner, at_exit, once } => {
+                o.push_str(&format!(
+                    "c19p variant={variant} (0 control, 1 deferred cancel + panic, 2 cancel outside fixpoint) inner={inner} at_exit={at_exit} once={once}\nthread A: {a_req}\nthread B: {b_req}\n"
+                ));
             }
             Spec::Alloc { ops } => {
                 for (i, l) in ops.iter().enumerate() {
@@ -183,6 +194,55 @@ fn gen_writes(rng: &mut Rng, n_inputs: usize, allow_lru: bool) -> Vec<Write> {
             _ => Write::Set(rng.usize(n_inputs), rng.below(256) as u8),
         })
         .collect()
+}
+
+/// c19p: `leaf`(0) ← `inner`(1) ← F(2) [↔ G(3)] ← `top`(4); `W`(5) is B's private wrapper of `inner`.
+/// F calls `inner` FIRST, so that a panic in `inner` happens before F becomes a cycle head.
+fn gen_c19p(rng: &mut Rng) -> (Program, Vec<u8>, Spec) {
+    let variant = rng.below(3) as u8;
+    let b = |e: Expr| Box::new(e);
+    let fix_kind = if rng.chance(1, 2) { Kind::Fix } else { Kind::Fix2 };
+    let f_kind = match variant {
+        0 => {
+            if rng.chance(1, 2) {
+                fix_kind
+            } else {
+                Kind::Plain
+            }
+        }
+        1 => fix_kind,
+        _ => Kind::Plain,
+    };
+    let real_cycle = f_kind.is_fix() && rng.chance(1, 2);
+    let k = |rng: &mut Rng| Expr::Const(1u8 << rng.usize(8));
+    let leaf = if rng.chance(1, 2) { Expr::In(0) } else { Expr::Or(b(Expr::In(0)), b(Expr::In(1))) };
+    let inner = if rng.chance(1, 2) {
+        Expr::Xor(b(Expr::Call(0)), b(Expr::In(1)))
+    } else {
+        Expr::Add(b(Expr::Call(0)), b(k(rng)))
+    };
+    let f = if real_cycle {
+        Expr::Or(b(Expr::Call(1)), b(Expr::Call(3)))
+    } else if f_kind.is_fix() {
+        Expr::Or(b(Expr::Call(1)), b(k(rng)))
+    } else {
+        Expr::Xor(b(Expr::Call(1)), b(k(rng)))
+    };
+    let g = if real_cycle { Expr::Or(b(Expr::Call(2)), b(k(rng))) } else { Expr::In(0) };
+    let nodes = vec![
+        Node { kind: Kind::Plain, body: leaf },
+        Node { kind: Kind::Plain, body: inner },
+        Node { kind: f_kind, body: f },
+        Node { kind: if real_cycle { fix_kind } else { Kind::Plain }, body: g },
+        Node { kind: Kind::Plain, body: Expr::Add(b(Expr::Call(2)), b(Expr::In(0))) },
+        Node { kind: Kind::Plain, body: Expr::Xor(b(Expr::Call(1)), b(Expr::Const(9))) },
+    ];
+    let prog = Program { n_inputs: 2, nodes };
+    let ins0 = gen_inputs(rng, 2);
+    let a_req = if rng.chance(1, 2) { 2 } else { 4 };
+    let b_req = if rng.chance(1, 2) { 1 } else { 5 };
+    let spec = Spec::PanicDeferred { variant, a_req, b_req, inner: 1, at_exit: rng.chance(1, 2), once: rng.chance(1, 2) };
+    (prog, ins0, spec)
 }
 
 fn gen_case(scenario: &str, index: usize, seed: u64) -> Case {
@@ -313,6 +373,12 @@ fn gen_case(scenario: &str, index: usize, seed: u64) -> Case {
                 _ => rng.below(20_000) as u32,
             };
             spec = Spec::LocalCancel { plans, victim: 0, self_cancel, delay };
+        }
+        "c19p" => {
+            (prog, ins0, spec) = gen_c19p(rng);
+        }
+        "c22" if rng.chance(1, 4) => {
+            (prog, ins0, spec) = gen_c19p(rng);
         }
         "c22" => {
             let cyclic = rng.chance(3, 10);
@@ -564,6 +630,161 @@ fn check_created(db: &Db, out: &mut Outcome, readback: bool) {
             }
         }
     }
+}
+
+#[cfg(feature = "shuttle")]
+fn exec_c19p(_: &Case, _: &Db, _: &[u8], _: (u8, usize, usize, usize, bool, bool), out: &mut Outcome) {
+    out.fail("oracle", "c19p unwinds past salsa locks: --mode threads only".into());
+}
+
+/// c19p, see [`Spec::PanicDeferred`].
+#[cfg(not(feature = "shuttle"))]
+fn exec_c19p(
+    case: &Case,
+    db: &Db,
+    ins: &[u8],
+    (variant, a_req, b_req, inner, at_exit, once): (u8, usize, usize, usize, bool, bool),
+    out: &mut Outcome,
+) {
+    let want = oracle(&case.prog, ins);
+    let st = db.st.clone();
+    let tt = std::time::Instant::now();
+    let timing = std::env::var("CONC_TIMING").is_ok();
+    let lap = |what: &str| {
+        if timing {
+            eprintln!("  {what}: {} us", tt.elapsed().as_micros());
+        }
+    };
+    // the scenario is fully orchestrated (gate, WillBlockOn): schedule perturbation only adds
+    // latency to every hand-over between the three threads
+    trace::set_yield_seed(0);
+    st.spin.store(0, Ordering::Relaxed);
+    let (a, b) = (db.clone(), db.clone());
+    let token = salsa::Database::cancellation_token(&a);
+    let a_handle = a.trace_handle();
+    st.gate_hid.store(a.hid, Ordering::SeqCst);
+    st.gate_node.store(inner + 1, Ordering::SeqCst);
+    st.panic_once.store(once, Ordering::SeqCst);
+    st.panic_at_exit.store(at_exit, Ordering::SeqCst);
+    st.counters.execs.lock().unwrap().clear();
+    let bar = Arc::new(std::sync::Barrier::new(3));
+    let spawn = |h: Db, req: usize, name: &'static str| {
+        let bar = bar.clone();
+        std::thread::spawn(move || {
+            trace::note(&format!("thread {name} handle {} h{}", h.hid, h.trace_handle()));
+            let r1 = request(&h, req);
+            bar.wait();
+            bar.wait();
+            let r2 = request(&h, req);
+            (r1, r2, h.unwound_cycle_frame.load(Ordering::Relaxed))
+        })
+    };
+    let wait_until = |what: &str, cond: &dyn Fn() -> bool, out: &mut Outcome| {
+        let t0 = std::time::Instant::now();
+        while !cond() {
+            if t0.elapsed() > std::time::Duration::from_secs(4) {
+                out.fail("oracle", format!("harness: {what} did not happen"));
+                return;
+            }
+            std::thread::sleep(std::time::Duration::from_micros(100));
+        }
+    };
+    let ta = spawn(a, a_req, "A");
+    wait_until("A entering `inner`", &|| st.gate_reached.load(Ordering::SeqCst), out);
+    lap("A at gate");
+    let blocked_before = st.counters.will_block.load(Ordering::SeqCst);
+    let tb = spawn(b, b_req, "B");
+    // WillBlockOn is emitted with the dependency-graph and shard locks held: from here on B is
+    // registered as a waiter before A can release `inner`
+    wait_until("B blocking on `inner`", &|| st.counters.will_block.load(Ordering::SeqCst) > blocked_before, out);
+    lap("B blocked");
+    if variant != 0 {
+        trace::note("cancel A");
+        token.cancel();
+    }
+    if variant != 2 {
+        st.panic_node.store(inner + 1, Ordering::SeqCst);
+    }
+    st.gate_open.store(true, Ordering::SeqCst);
+    bar.wait();
+    lap("phase 1 done");
+    let inner_idx = st.keys()[inner].as_id().index();
+    let execs_inner = st.counters.execs.lock().unwrap().iter().filter(|k| **k == inner_idx).count();
+    st.panic_node.store(0, Ordering::SeqCst);
+    trace::note("phase 2");
+    bar.wait();
+    lap("phase 2 released");
+    let (ra, rb) = match (ta.join(), tb.join()) {
+        (Ok(a), Ok(b)) => (a, b),
+        _ => {
+            out.fail("oracle", "harness thread panicked".into());
+            return;
+        }
+    };
+    out.log.push(format!("c19p variant {variant}: A {a_req}={} then {}; B {b_req}={} then {}; inner executed {execs_inner}x", ra.0.show(), ra.1.show(), rb.0.show(), rb.1.show()));
+    match variant {
+        0 | 1 => {
+            out.note(if variant == 0 { "c19p_control" } else { "c19p_deferred" });
+            if ra.0 != Res::Injected(inner) {
+                out.fail("oracle", format!("A: node {a_req} = {} want panic:user@{inner}", ra.0.show()));
+            }
+            if rb.0 != Res::PropagatedPanic {
+                out.fail(
+                    "oracle",
+                    format!("B (blocked on A's panicking `inner`): node {b_req} = {} want cancelled:propagated-panic", rb.0.show()),
+                );
+            }
+            if execs_inner != 1 {
+                out.fail("oracle", format!("`inner` executed {execs_inner} times in one revision, want 1"));
+            }
+        }
+        _ => {
+            out.note("c19p_outside_fixpoint");
+            if ra.0 != Res::Local {
+                out.fail("oracle", format!("A: node {a_req} = {} want cancelled:local", ra.0.show()));
+            }
+            if !agrees(&rb.0, want[b_req]) {
+                out.fail("oracle", format!("B (waiter of a locally cancelled handle): node {b_req} = {} want {}", rb.0.show(), fmt_out(want[b_req])));
+            }
+            if execs_inner != 2 {
+                out.fail("oracle", format!("`inner` executed {execs_inner} times, want 2 (A's cancelled run + B's retry)"));
+            }
+        }
+    }
+    if ra.2 && ra.0 == Res::Local {
+        out.fail("oracle", "Cancelled::Local unwound through the body of a fixpoint function".into());
+    }
+    // KNOWN FINDING (C22, /verif/corpus/C22/poisoned_fixpoint_function.prog): a fixpoint-kind
+    // function whose body unwound with a panic stays poisoned for the rest of the revision (every
+    // request that reaches it throws PropagatedPanic). Counted, strict with `--strict`; the caller
+    // re-checks everything after a synthetic write.
+    let reach = case.prog.reach(ins);
+    let poisoned: Vec<usize> = (0..case.prog.nodes.len())
+        .filter(|&f| variant != 2 && case.prog.nodes[f].kind.disables_local_cancellation() && reach[f][inner])
+        .collect();
+    let mut afterwards = |who: &str, n: usize, r: &Res, out: &mut Outcome| {
+        if agrees(r, want[n]) {
+            return;
+        }
+        if !strict() && *r == Res::PropagatedPanic && poisoned.iter().any(|&f| reach[n][f]) {
+            out.note("known_poisoned_cycle_retry");
+        } else {
+            out.fail("oracle", format!("{who} afterwards: node {n} = {} want {}", r.show(), fmt_out(want[n])));
+        }
+    };
+    afterwards("A", a_req, &ra.1, out);
+    afterwards("B", b_req, &rb.1, out);
+    for l in trace::snapshot() {
+        if l.starts_with("cancel unwind") && l.ends_with("Local") && (variant != 2 || !l.contains(&format!(" h{a_handle} "))) {
+            out.fail("oracle", format!("unexpected Local unwind: {l}"));
+        }
+    }
+    lap("joined");
+    for n in 0..want.len() {
+        let r = request(db, n);
+        afterwards("sequential", n, &r, out);
+    }
+    lap("sequential done");
 }
 
 fn exec_case(case: &Case) -> Outcome {
@@ -826,6 +1047,12 @@ fn exec_case(case: &Case) -> Outcome {
             }
             apply_write(&mut db, &mut ins, &Write::Synthetic);
             check_all_sequential(&db, &want, "after the panic and a new revision", &mut out);
+        }
+        Spec::PanicDeferred { variant, a_req, b_req, inner, at_exit, once } => {
+            exec_c19p(case, &db, &ins, (*variant, *a_req, *b_req, *inner, *at_exit, *once), &mut out);
+            apply_write(&mut db, &mut ins, &Write::Synthetic);
+            let want = oracle(&case.prog, &ins);
+            check_all_sequential(&db, &want, "after c19p and a new revision", &mut out);
         }
         Spec::Alloc { ops } => {
             let want = oracle(&case.prog, &ins);
@@ -1695,7 +1922,7 @@ fn main() {
         eprintln!("this binary was built for --mode {MODE} (use the build with{} --features shuttle)", if MODE == "shuttle" { "out" } else { "" });
         std::process::exit(2);
     }
-    if MODE == "shuttle" && matches!(scenario.as_str(), "c14" | "c20" | "c21" | "c22") {
+    if MODE == "shuttle" && matches!(scenario.as_str(), "c14" | "c19p" | "c20" | "c21" | "c22") {
         eprintln!("scenario {scenario} unwinds past salsa locks and runs in --mode threads only (DESIGN §2.5a)");
         std::process::exit(2);
     }
